@@ -163,31 +163,71 @@ def run_case(ctx, case, ir, lines):
 
 
 def bay_delegation(ctx, rng):
-    """StiffPanelBay.calc_kA must represent the same law as the skin panel it delegates to"""
+    """StiffPanelBay.calc_kA must represent the same law as the skin panel it delegates to - in the amplitude space OF THE BAY (2-D
+    stiffeners carry amplitudes of their own, on which the aerodynamic matrix vanishes), flat and cylindrical (the curvature term is
+    symmetric, the flow term skew-symmetric: both must survive the completion from the upper triangle)"""
     from compmech.stiffpanelbay import StiffPanelBay
+    from compmech.panel import Panel
     bay = StiffPanelBay()
     bay.a, bay.b = rng.uniform(0.5, 2), rng.uniform(0.5, 2)
-    bay.m = bay.n = 3
+    bay.m = bay.n = rng.choice([3, 4])
     bay.stack = [0, 90, 0]
     bay.plyt = 1e-3
-    bay.laminaprop = (142.5e9, 8.7e9, 0.28, 5.1e9, 5.1e9, 5.1e9)
+    lp = (142.5e9, 8.7e9, 0.28, 5.1e9, 5.1e9, 5.1e9)
+    bay.laminaprop = lp
     bay.mu = 1500.
+    curved = rng.random() < 0.5
+    if curved:
+        bay.r = rng.uniform(1., 5.)
+        bay.model = 'cpanel_clt_donnell_bardell'
     use_beta = rng.random() < 0.5
     if use_beta:
         bay.beta = rng.uniform(1, 20)
+        if curved:
+            bay.gamma = rng.uniform(0.1, 3.)
     else:
         bay.Mach, bay.rho_air, bay.speed_sound = 2., 0.4, 300.
         bay.V = 600.
-    bay.add_panel(y1=0, y2=bay.b, plyt=bay.plyt)
-    desc = dict(a=bay.a, b=bay.b, beta=getattr(bay, 'beta', None), Mach=getattr(bay, 'Mach', None))
+    stiff = rng.choice(['none', 'blade2d', 't2d'])
+    if stiff == 'none':
+        bay.add_panel(y1=0, y2=bay.b, plyt=bay.plyt)
+    else:
+        ys = bay.b * rng.uniform(0.3, 0.7)
+        bay.add_panel(y1=0, y2=ys, plyt=bay.plyt)
+        bay.add_panel(y1=ys, y2=bay.b, plyt=bay.plyt)
+        kw = dict(ys=ys, bf=0.08 * bay.b, fstack=[0, 90], fplyt=1e-3, flaminaprop=lp, mf=3, nf=3)
+        if stiff == 'blade2d':
+            pc.quiet(bay.add_bladestiff2d, **kw)
+        else:
+            pc.quiet(bay.add_tstiff2d, bb=0.15 * bay.b, bstack=[0, 90], bplyt=1e-3, blaminaprop=lp, mb=3, nb=3, **kw)
+    desc = dict(a=bay.a, b=bay.b, r=bay.r, m=bay.m, beta=getattr(bay, 'beta', None), gamma=getattr(bay, 'gamma', None),
+                Mach=getattr(bay, 'Mach', None), stiffener=stiff)
     try:
         pc.quiet(bay.calc_k0, silent=True)
+        size = pc.quiet(bay.get_size)
         kA = pc.quiet(bay.calc_kA, silent=True).toarray()
     except Exception as e:
         return desc, 'StiffPanelBay.calc_kA with %s raised %s: %s' % (
             'beta given' if use_beta else 'Mach given', type(e).__name__, e), ('C19-bay-ignores-beta' if use_beta else None)
-    if kA.shape != (bay.size, bay.size):
-        return desc, 'StiffPanelBay.calc_kA returned shape %r for a bay of size %d' % (kA.shape, bay.size), None
+    if kA.shape != (size, size):
+        return desc, 'StiffPanelBay.calc_kA returned shape %r for a bay of %d amplitudes (stiffener: %s)' % (kA.shape, size, stiff), None
+    # the stand-alone skin panel with the bay's data (single panels are tied to the piston-theory oracle by run_case), embedded
+    q = Panel(a=bay.a, b=bay.b, r=bay.r, m=bay.m, n=bay.n, stack=list(bay.stack), plyt=bay.plyt, laminaprop=lp, mu=bay.mu)
+    q.model = bay.model
+    for fl in [f + e + d for f in 'uvw' for e in ('1t', '1r', '2t', '2r') for d in 'xy']:
+        setattr(q, fl, getattr(bay, fl))
+    for k in ('beta', 'gamma', 'aeromu', 'Mach', 'rho_air', 'speed_sound', 'V', 'flow'):
+        setattr(q, k, getattr(bay, k))
+    try:
+        want = pc.quiet(q.calc_kA, size=size, row0=0, col0=0, silent=True).toarray()
+    except Exception as e:
+        return None, None, None
+    d = pc.rel_diff(kA, want)
+    if d > 1e-12:
+        sym = np.abs(kA + kA.T).max() / max(np.abs(kA).max(), 1e-300)
+        return desc, ('StiffPanelBay.calc_kA differs from the aerodynamic matrix of its skin panel taken alone (same data, bay size): rel %.3e; '
+                      'symmetric part of the bay matrix %.3e of its scale, of the panel matrix %.3e'
+                      % (d, sym, np.abs(want + want.T).max() / max(np.abs(want).max(), 1e-300))), None
     return None, None, None
 
 
@@ -308,7 +348,7 @@ def correspondence(ctx):
             ctx.violation('model/implementation disagreement on the piston-theory coefficients: model (%r, %r) vs code %r'
                           % (float(mb), float(gm), coef), dict(case=case, tie='H Model/Piston.lean'), found_input=False)
             return
-    for t in range(ctx.scale(3, 20)):
+    for t in range(ctx.scale(8, 40)):
         c, bad, ident = bay_delegation(ctx, rng)
         ctx.evaluations += 1
         if bad and ctx.violation('C19 fails on the implementation: ' + bad, dict(case=c, derived='bay'), identity=ident):
